@@ -78,3 +78,15 @@ PROPS["C07"] = dict(
     level_text="Proof: Coq theorems (Properties/C07.v): the reference sort is a permutation of its input for every comparator, and has no inversion wherever the comparator is a strict weak order on the keys at hand; OFFSET n is skipn (max 0 n) with the four frame equations; LIMIT n is firstn (max 0 n); WITH TIES adds exactly the maximal run of following rows whose keys are equivalent to the last kept row's; LIMIT 0 WITH TIES is empty; PERCENT above 100 keeps everything, below 0 nothing, and counts the pre-offset rows. The model (comparator of sort_value.go, LIMIT/OFFSET of view.go after four repairs) is tied to the code by ORDER BY/LIMIT/OFFSET queries whose output is checked in Coq: no inversion under the model comparator, sub-multiset of the input, the model's length, key classes equal position by position. Not proved: that SortValues.Less is a strict weak order on comparable columns (it is a hypothesis of the no-inversion theorem and is exercised by the checker on every case).",
     level_note="Trusted: Coq kernel + vm_compute; primitive floats; Go harness; sort.Sort. Known outside-the-property observation: int/float comparison through float64 above 2^53 (F-C07-4) and strict-equal case variants are not generated.",
     design_ref="DESIGN.md section 5 (C07)")
+
+PROPS["C05"] = dict(
+    theorem_file="Properties/C05.v",
+    kinds={1: ("dml-mismatch", "after some statement of the history the reported count or the table (SELECT *) differs from Model.Dml.exec", True),
+           2: ("dml-frame", "the implementation's own observations break the frame condition (a failed statement changed the table; INSERT/DELETE row counts do not move by the reported number; old rows not kept in place)", True),
+           4: ("oracle-wf", "string oracle inconsistent with the modelled parsers", True)},
+    expected=lambda kind, cid: "Eval vm_compute in (map expected_dml (filter (fun c => N.eqb (did c) %d) dcases))." % cid,
+    trusted=COMMON_TRUST + [FLOAT_TRUST, ORACLE_TRUST],
+    assumptions=_QUERY_ASSUME + ["multi-table UPDATE/DELETE, stdin tables and the final COMMIT of the history are not modelled here (files: C01/C02)", "column names are resolved to positions by the harness, which tracks ADD/DROP/RENAME"],
+    level_text="Proof: Coq theorems (Properties/C05.v) over ALL tables and statements of the modelled single-table forms: INSERT appends exactly the given rows in order (listed columns get their value, the others NULL; old rows and width untouched; count = rows given); UPDATE keeps number and order of rows, leaves rows whose condition is not TRUE unchanged and, in matching rows, every column outside the SET list (count = matching rows); DELETE keeps exactly the non-matching rows in order (count = removed); ADD COLUMN / DROP COLUMN / RENAME leave the other cells and their order untouched; histories compose (fold) and a failing statement changes nothing. The model (Model/Dml.v incl. REPLACE after the repair of the map-order defect) is tied to the code by histories of 1-10 statements on file tables and temporary tables through parser.Parse + Processor.ExecuteStatement, comparing the reported count and SELECT * after every statement inside Coq. Partial: REPLACE has no general theorem yet (model + correspondence + example only); multi-table forms are not modelled.",
+    level_note="Trusted: Coq kernel + vm_compute; primitive floats; Go harness incl. its tracking of column names; string oracles.",
+    design_ref="DESIGN.md section 5 (C05)")
